@@ -190,6 +190,23 @@ def in_range_ref(case, x):
     return xr[0] <= x < xr[1]
 
 
+def in_domain(case):
+    """the quantifier of C06 / C07: inside the fitted range the y-uncertainties are all zero or all positive
+    (a mix hands infinite weights to LAPACK, which may not even return), x-uncertainties likewise sane"""
+    if case.get("malformed"):
+        return True
+    try:
+        sel = [p for p in points(case) if in_range_ref(case, p[0])]
+    except TypeError:
+        return True
+    pos = [p[3] > 0 for p in sel]
+    if any(pos) and not all(pos):
+        return False
+    if len(set(case["xs"])) != len(case["xs"]):
+        return False
+    return all(math.isfinite(v) and v >= 0 for p in points(case) for v in (p[1], p[3]))
+
+
 def gen_xrange(rng, xs, nparams, valid=True):
     """an x-range whose bounds sit on data values (boundary!) or between them"""
     s = sorted(xs)
@@ -206,7 +223,7 @@ def gen_xrange(rng, xs, nparams, valid=True):
 
 
 def gen_poly_case(rng, malformed=False):
-    model = rng.choice(POLY_MODELS)
+    model = rng.choice(POLY_MODELS + ("polynomial",))
     deg = {"linear": 1, "quadratic": 2}.get(model) or rng.choice([1, 2, 3, 3, 4, 5])
     npar = deg + 1
     k = rng.randrange(1, 6)
@@ -585,6 +602,12 @@ def shard_text(check, terms):
         coq_list(terms), check)
 
 
+def signature(why):
+    """what kind of failure a message describes (numbers removed), to report each kind once"""
+    import re
+    return re.sub(r"[-+]?\d[\d.e+-]*", "#", why or "")[:48]
+
+
 def strip(obs):
     """JSON-able part of an observation"""
     return {k: v for k, v in obs.items() if not k.startswith("_")}
@@ -610,7 +633,7 @@ def shrink_case(case, fails):
     def attempt(c):
         nonlocal best
         try:
-            if fails(c):
+            if in_domain(c) and fails(c):
                 best = c
                 return True
         except Exception:  # noqa
